@@ -189,6 +189,13 @@ def dropped_admin_probe(r, ops, tags):
     chain's admin and by the remaining admin"""
     new = r.choice(["ca5", "ca6"])
     ops.append(f"block xfer adm0 {new} 100000000000")
+    if r.random() < 0.7:
+        # the admin-to-be-dropped uses the managers that ask "is the caller an admin of this chain" while it still is one (calls that
+        # pass the permission check and fail on their arguments): whatever a contract object remembers from these calls must not count later
+        ops.append("block bvm ca1 rule LogoutRule s:c1 s:0x00000000000000000000000000000000000000ff")
+        ops.append("block bvm ca1 service LogoutService s:c1:nosuch s:reason")
+        ops.append("block bvm ca1 rule RegisterRule s:c1 s:0x00000000000000000000000000000000000000ff s:url")
+        tags.add("dropped-admin:warmed-up")
     ops.append(f"block bvm ca1 appchain UpdateAppchain s:c1 s:name-c1 s:desc x: al:ca1,{new} s:reason")
     for v in ("adm0", "adm1", "adm2"):
         ops.append(f"block bvm {v} gov Vote s:@ca1-{PRELUDE_PROPOSALS['ca1']} s:approve s:r")
